@@ -372,7 +372,7 @@ rt_base!(c18_t_rt_t3_n14, 3, 14);
 rt_base!(c18_x_rt_t3_n15, 3, 15);
 rt_ptr_dec!(c18_t_rt_t4_n0_l212_dec, 4, 0, 2, 1, 2);
 rt_ptr_dec!(c18_q_rt_t4_n1_l111_dec, 4, 1, 1, 1, 1);
-rt_ptr_enc!(c18_t_rt_t4_n1_l111_enc, 4, 1, 1, 1, 1);
+rt_ptr_enc!(c18_x_rt_t4_n1_l111_enc, 4, 1, 1, 1, 1);
 rt_ptr_dec!(c18_t_rt_t4_n1_l121_dec, 4, 1, 1, 2, 1);
 rt_ptr_dec!(c18_t_rt_t4_n2_l221_dec, 4, 2, 2, 2, 1);
 rt_ptr_dec!(c18_t_rt_t4_n3_l112_dec, 4, 3, 1, 1, 2);
@@ -388,7 +388,7 @@ rt_ptr_dec!(c18_t_rt_t4_n12_l212_dec, 4, 12, 2, 1, 2);
 rt_ptr_dec!(c18_t_rt_t4_n13_l121_dec, 4, 13, 1, 2, 1);
 rt_ptr_dec!(c18_t_rt_t4_n14_l221_dec, 4, 14, 2, 2, 1);
 rt_ptr_dec!(c18_t_rt_t4_n15_l112_dec, 4, 15, 1, 1, 2);
-rt_ptr_enc!(c18_t_rt_t4_n15_l112_enc, 4, 15, 1, 1, 2);
+rt_ptr_enc!(c18_x_rt_t4_n15_l112_enc, 4, 15, 1, 1, 2);
 rt_ptr_dec!(c18_t_rt_t5_n0_l212_dec, 5, 0, 2, 1, 2);
 rt_ptr_enc!(c18_t_rt_t5_n0_l212_enc, 5, 0, 2, 1, 2);
 rt_ptr_dec!(c18_t_rt_t5_n1_l121_dec, 5, 1, 1, 2, 1);
@@ -406,7 +406,7 @@ rt_ptr_dec!(c18_t_rt_t5_n12_l212_dec, 5, 12, 2, 1, 2);
 rt_ptr_dec!(c18_t_rt_t5_n13_l121_dec, 5, 13, 1, 2, 1);
 rt_ptr_dec!(c18_t_rt_t5_n14_l221_dec, 5, 14, 2, 2, 1);
 rt_ptr_dec!(c18_q_rt_t5_n15_l212_dec, 5, 15, 2, 1, 2);
-rt_ptr_enc!(c18_t_rt_t5_n15_l212_enc, 5, 15, 2, 1, 2);
+rt_ptr_enc!(c18_x_rt_t5_n15_l212_enc, 5, 15, 2, 1, 2);
 rt_ptr_dec!(c18_t_rt_t5_n15_l112_dec, 5, 15, 1, 1, 2);
 rt_ent!(c18_t_rt_t6_n0, 6, 0);
 rt_ent!(c18_q_rt_t6_n1, 6, 1);
